@@ -5,6 +5,7 @@ Import ListNotations.
 From Mds Require Import Slice.Subseq Slice.LcsModel Slice.LcsProofs.
 From Mds Require Import Slice.LisModel Slice.LisSpec Slice.LisProofs.
 From Mds Require Import Slice.LcsSpec Slice.LcsSpecProofs Slice.LisSpecProofs.
+From Mds Require Gen.LisIdx.
 
 (* LCSFunc under any equivalence: a result is always returned (no panic, fuel suffices); it is a
    common subsequence (up to eqb) of both arguments; no common subsequence is longer. *)
@@ -53,6 +54,32 @@ Example C12_lcs_exact_side_witness :
   lcs_func Z eqb [11; 22; 13]%Z [21; 31; 42; 52]%Z = Some [11; 22]%Z
   /\ lcs_swap Z [11; 22; 13]%Z [21; 31; 42; 52]%Z = ([11; 22; 13], [21; 31; 42; 52])%Z.
 Proof. vm_compute. split; reflexivity. Qed.
+
+(* LCSFunc with ANY boolean test, no law at all (== on floats is not reflexive at NaN; a test
+   need not be symmetric): a result is always returned; it is an element-identical subsequence of
+   the shorter input xs (the first argument on equal lengths), matches a subsequence of the other
+   input ys under the test called as eqb x y (x from xs: the argument order of the code), nothing
+   with these two properties is longer, and its length is the reference optimum of (xs, ys). *)
+Theorem C12_lcs_any_test :
+  forall (T : Type) (eqb : T -> T -> bool) (l r : list T), exists s,
+    lcs_func T eqb l r = Some s /\
+    let (xs, ys) := lcs_swap T l r in
+    Subseq s xs /\ SubseqB eqb s ys /\
+    (forall u, Subseq u xs -> SubseqB eqb u ys -> (length u <= length s)%nat) /\
+    length s = lcs_len_ref T eqb xs ys.
+Proof. exact lcs_func_any_test. Qed.
+Print Assumptions C12_lcs_any_test.
+
+Example C12_lcs_any_test_witness :
+  (* an asymmetric test (x <= y) and a test that is not reflexive at 9 (as == at NaN); in the
+     first the inputs are swapped, so the test is called with the elements of the SECOND argument
+     on the left *)
+  lcs_func Z Z.leb [5; 1; 4; 2]%Z [3; 6; 0]%Z = Some [3; 0]%Z
+  /\ lcs_swap Z [5; 1; 4; 2]%Z [3; 6; 0]%Z = ([3; 6; 0], [5; 1; 4; 2])%Z
+  /\ lcs_func Z Z.leb [5; 1; 4]%Z [3; 6; 0]%Z = Some [1; 4]%Z
+  /\ lcs_func Z Z.leb [3; 6; 0]%Z [5; 1; 4]%Z = Some [3; 0]%Z
+  /\ lcs_func Z (fun a b => Z.eqb a b && negb (Z.eqb a 9)) [9; 1; 9; 2]%Z [9; 9; 1; 2]%Z = Some [1; 2]%Z.
+Proof. vm_compute. repeat split; reflexivity. Qed.
 
 (* ---------------- LNDS / LIS ---------------- *)
 
@@ -105,6 +132,65 @@ Proof.
   - rewrite <- Z.sgn_opp. f_equal. lia.
   - lia.
 Qed.
+
+(* LISFunc calls slices.BinarySearchFunc of the standard library, which is not part of the
+   repository.  [lis_func_std impl] is the model of LISFunc over an arbitrary implementation
+   [impl] of that search (a function of the comparison results cmp(x[0],t), cmp(x[1],t), ...).
+   For EVERY impl that meets the documented contract -- on a slice sorted with respect to cmp it
+   returns the smallest index i with cmp(x[i],t) >= 0, or len(x) -- LISFunc is optimal, and
+   returns exactly what [lis_func] (built on a copy of the go1.23 loop, the model replayed against
+   the real package) returns.  So the particular standard-library implementation cannot matter. *)
+Theorem C12_lis_optimal_any_stdlib :
+  forall (T : Type) (cmp : T -> T -> Z),
+    (forall a b, Z.sgn (cmp b a) = - Z.sgn (cmp a b))%Z ->
+    (forall a b c, cmp a b <= 0 -> cmp b c <= 0 -> cmp a c <= 0)%Z ->
+    forall impl : list Z -> option Z, bsf_meets_contract impl ->
+    forall vs : list T, exists s,
+      lis_func_std T cmp impl vs = Some s /\ Subseq s vs /\ ordered_b T cmp true s = true /\
+      forall t, Subseq t vs -> ordered_b T cmp true t = true -> (length t <= length s)%nat.
+Proof. exact lis_func_std_optimal. Qed.
+Print Assumptions C12_lis_optimal_any_stdlib.
+
+Example C12_lis_optimal_any_stdlib_witness :
+  (* a linear scan meets the contract; so does the go1.23 loop run on the comparison results *)
+  let scan := fun ks => Some (Z.of_nat (first_nonneg ks)) in
+  bsf_meets_contract scan /\ bsf_meets_contract go123_on_keys
+  /\ lis_func_std Z Z.sub scan [3; 1; 2; 2; 5; 4; 4; 1; 6]%Z = Some [1; 2; 4; 6]%Z
+  /\ go123_on_keys [-3; -1; 0; 0; 2]%Z = Some 2%Z.
+Proof.
+  cbv zeta. split; [exact linear_scan_meets_contract|]. split; [exact go123_meets_contract|].
+  vm_compute. split; reflexivity.
+Qed.
+
+Theorem C12_lis_stdlib_irrelevant :
+  forall (T : Type) (cmp : T -> T -> Z),
+    (forall a b, Z.sgn (cmp b a) = - Z.sgn (cmp a b))%Z ->
+    (forall a b c, cmp a b <= 0 -> cmp b c <= 0 -> cmp a c <= 0)%Z ->
+    forall impl : list Z -> option Z, bsf_meets_contract impl ->
+    forall vs : list T, lis_func_std T cmp impl vs = lis_func T cmp vs.
+Proof. exact lis_func_std_same. Qed.
+Print Assumptions C12_lis_stdlib_irrelevant.
+
+Example C12_lis_stdlib_irrelevant_witness :
+  lis_func_std Z Z.sub (fun ks => Some (Z.of_nat (first_nonneg ks))) [3; 1; 2; 2; 5; 4; 4; 1; 6]%Z
+  = lis_func Z Z.sub [3; 1; 2; 2; 5; 4; 4; 1; 6]%Z
+  /\ lis_func Z Z.sub [3; 1; 2; 2; 5; 4; 4; 1; 6]%Z = Some [1; 2; 4; 6]%Z.
+Proof. vm_compute. split; reflexivity. Qed.
+
+(* Unsigned midpoint arithmetic of the two binary searches cannot wrap for any slice length an
+   int can hold, so modelling machine ints by Z loses nothing there. *)
+Theorem C12_search_mid_in_range :
+  forall low high n : Z,
+    (0 <= low -> low < high -> high <= n -> n < 2 ^ 63 ->
+     0 <= low + high < 2 ^ 64 /\
+     low <= Gen.LisIdx.bis_mid low high < high /\
+     low <= Z.shiftr (low + high) 1 < high)%Z.
+Proof. exact search_mid_in_range. Qed.
+Print Assumptions C12_search_mid_in_range.
+
+Example C12_search_mid_in_range_witness :
+  (Gen.LisIdx.bis_mid (2 ^ 63 - 2) (2 ^ 63 - 1) = 2 ^ 63 - 2)%Z.
+Proof. vm_compute. reflexivity. Qed.
 
 (* ---------------- the independent reference ---------------- *)
 (* The OCaml driver judges the implementation's own outputs with [subseq_b], [ordered_b],
